@@ -55,7 +55,19 @@ def run_cron_tick(n):
         E.cuts['State::get_deals_for_epoch'] = lambda E2, c: ok(VecV(list(ids), 'Vec<u64>'), c.dest_ty)
         E.cuts['State::remove_deals_by_epoch'] = lambda E2, c: ok(UNIT, c.dest_ty)
         E.cuts['State::remove_sector_deal_ids'] = lambda E2, c: ok(UNIT, c.dest_ty)
-        E.cuts['State::put_batch_deals_by_epoch'] = lambda E2, c: ok(UNIT, c.dest_ty)
+        def cut_put_batch(E2, c):
+            from mirsym.models_std import DictM
+            d = E2.deref(c.args[2])
+            d = d.obj if isinstance(d, ObjV) else d
+            if not isinstance(d, DictM):
+                raise Inconclusive('put_batch_deals_by_epoch: expected a map epoch -> ids, got %r' % (d,))
+            out = []
+            for (kt, kv, cell) in d.items:
+                for x in E2.deref(cell.value).items:
+                    out.append((zv(E2.deref(kv)), zv(E2.deref(x))))
+            env['rescheduled'] = out
+            return ok(UNIT, c.dest_ty)
+        E.cuts['State::put_batch_deals_by_epoch'] = cut_put_batch
         pens = env.setdefault('pens', [])
         slashes = env.setdefault('slashes', [])
 
@@ -122,6 +134,28 @@ def props_cron_tick(E, res):
     P.append(tagged('C05', 'the tick records the epoch it processed', fget(E, rt.state, ST['last_cron'], 'i64').v == rt.epoch))
     # the invariant the tick itself assumes (an unstamped deal still has its pending entry) is kept: a deal that continues is
     # written back stamped with the epoch of this update
+    # a deal that continues stays on the schedule: exactly one new entry, strictly in the future, within one update interval;
+    # a deal that ends is not rescheduled
+    resched = env.get('rescheduled')
+    if resched is None:
+        P.append(tagged('C05,C07', 'the tick writes the new schedule', False))
+    else:
+        for u in env.get('updated', []):
+            if u['did'] is None:
+                P.append(tagged('C05,C07', 'updated deals are identified', False))
+                continue
+            mine = [ep for (ep, did) in resched if implied(ctx, did == u['did'])]
+            rem = u['remove'] if is_sym(u['remove']) else z3.BoolVal(bool(u['remove']))
+            if implied(ctx, rem):
+                P.append(tagged('C05,C07', 'a deal that ends in the tick is not rescheduled', len(mine) == 0))
+            elif implied(ctx, z3.Not(rem)):
+                P.append(tagged('C05,C07', 'a deal that continues is rescheduled exactly once', len(mine) == 1))
+                for ep in mine:
+                    P.append(tagged('C05,C07', 'the next update of a continuing deal is strictly in the future and at most one update interval away',
+                                    z3.And(ep > rt.epoch, ep <= rt.epoch + 86400)))
+            else:
+                P.append(tagged('C05,C07', 'whether an updated deal continues is decided on the path', False))
+        P.append(tagged('C05,C07', 'only deals updated in the tick are rescheduled', len(resched) <= len(env.get('updated', []))))
     sm = heap_get(E, fget(E, rt.state, ST['states'], CID))
     for u in env.get('updated', []):
         if implied(ctx, u['remove']):
@@ -224,6 +258,40 @@ def props_terminate(E, res):
     return P
 
 
+# ---- next_update_epoch: the per-deal slot of the cron schedule ---------------------------------------------------------------
+
+def run_next_update(E):
+    rt, rtref = new_rt(E)
+    did, k, r = z3.Int('deal_id'), z3.Int('slot.period'), z3.Int('slot.into')
+    # earliest in coordinates relative to the deal's offset (id mod interval): earliest = offset + 86400 * k + r. Every epoch has
+    # exactly one such decomposition, so this is a change of variables (see run_clock in miner_cron.py)
+    a, b = z3.Int('id.high'), z3.Int('id.offset')
+    E.ctx.assume(z3.And(did == 86400 * a + b, b >= 0, b < 86400, did >= 0, did < 2**62, r >= 0, r < 86400))
+    earliest = b + 86400 * k + r
+    E.ctx.assume(z3.And(earliest >= 0, earliest < 2**40))
+    E.ctx.env.update(dict(did=did, off=b, k=k, r=r, earliest=earliest))
+    fn = find_fn(E, MARKET, 'next_update_epoch')
+    return E.run_function(fn, [IntV(did, 'u64'), IntV(86400, 'i64'), IntV(earliest, 'i64')]), rt
+
+
+def props_next_update(E, res):
+    env = res.ctx.env
+    if res.kind != 'return':
+        return [tagged('C05,C07,C08', 'no panic (%s)' % str(res.info)[:60], False)]
+    v = zv(res.value)
+    want = z3.If(env['r'] == 0, env['earliest'], env['earliest'] - env['r'] + 86400)
+    return [tagged('C05,C07,C08', 'the first update slot of a deal is never before the given epoch (a deal is never due before its start epoch) and within one interval of it',
+                   z3.And(v >= env['earliest'], v < env['earliest'] + 86400)),
+            tagged('C05,C07,C08', "the slot is the deal's fixed offset (id mod interval) within the interval: exactly the first such epoch", v == want)]
+
+
+def build_next_update(pid, tier):
+    wrap = lambda f: (lambda E, res: for_property(pid, f(E, res)))
+    return [Obligation('market.next_update_epoch', run_next_update, wrap(props_next_update),
+                       descr="the cron slot of a deal: the first epoch >= earliest that is congruent to the deal id modulo the update interval",
+                       bounds='policy interval 86400 (30 days); ids < 2^62; epochs in [0, 2^40)', max_paths=200, fresh_solver=True)]
+
+
 def build_for(pid, tier):
     wrap = lambda f: (lambda E, res: for_property(pid, f(E, res)))
     O = []
@@ -234,6 +302,8 @@ def build_for(pid, tier):
                                 descr='market cron callback: everything slashed in the tick is burnt in one send; fails only for a wrong caller or a failed burn; last_cron advances',
                                 bounds='one epoch to process (tick run at every epoch), %d due deal(s); %s; assumed invariants: a due deal is never before its start epoch, an activated never-settled deal still has its pending entry' % (n, CUTS_TXT),
                                 max_paths=200000))
+    if pid in ('C05', 'C07'):
+        O += build_next_update(pid, tier)
     if pid in ('C01', 'C07'):
         for n in ns:
             O.append(Obligation('market.on_miner_sectors_terminate[%d deals]' % n, run_terminate(n), wrap(props_terminate),
